@@ -38,7 +38,7 @@ def stepLine (st : St) (line : String) : St × String :=
     ((cf, rc.1, ru.1), s!"C={fmtResp rc.2};U={fmtResp ru.2}")
   match line.trimAscii.toString.splitOn " " with
   | ["new"] => ((cf, Server.empty, UServer.empty), "ok")
-  | ["cfg", r, a] => (({ replayIsComplete := r == "1", atomicWrite := a == "1", loadIsPerEntry := true, replayOrderPreserved := true, loadReadsCommitted := true, saveOnEveryEnding := true, loadSkipsUnusable := true }, c, u), "ok")
+  | ["cfg", r, a] => (({ replayIsComplete := r == "1", atomicWrite := a == "1", loadIsPerEntry := true, replayOrderPreserved := true, loadReadsCommitted := true, saveOnEveryEnding := true, savedEqualsLive := true, loadSkipsUnusable := true }, c, u), "ok")
   | ["damage", id] =>
     match id.toNat? with
     | some id => ((both (.damage id)).1, "ok")
@@ -84,4 +84,4 @@ partial def loop (h : IO.FS.Stream) (st : St) : IO Unit := do
   IO.println out
   loop h st'
 
-def main : IO Unit := do loop (← IO.getStdin) ({ replayIsComplete := true, atomicWrite := false, loadIsPerEntry := true, replayOrderPreserved := true, loadReadsCommitted := true, saveOnEveryEnding := true, loadSkipsUnusable := true }, Server.empty, UServer.empty)
+def main : IO Unit := do loop (← IO.getStdin) ({ replayIsComplete := true, atomicWrite := false, loadIsPerEntry := true, replayOrderPreserved := true, loadReadsCommitted := true, saveOnEveryEnding := true, savedEqualsLive := true, loadSkipsUnusable := true }, Server.empty, UServer.empty)
